@@ -2942,3 +2942,43 @@ def rule_options_punctuation_pairs(col, facts):
             missing_any = miss
     col.check(R, "is_valid_options_punctuation:pairwise", n >= 1 and missing_any is None,
               "an accepting path never compares %s: options whose decimal point / exponent character equals that format character are reported valid (separator '.' with the default decimal point: `1.5` parses as 15)" % (missing_any,), f.loc())
+
+
+def rule_lossy_only_removes_work(col, facts):
+    """WHO-lossy (polarity): `lossy` means "never fall back to a slower, exact step".  In the moderate-path
+    algorithms it is therefore only ever tested to *skip* work: every computation or call that is
+    control-dependent on the flag sits on the `lossy == false` side, and nothing is computed only when it is true
+    (an adjustment such as `mantissa += 1` under `lossy` changes values: radix 16 `f.fffffffffffffff8` gave 8
+    instead of 16).  The estimate itself is never gated either way: Bellerophon's `normalize` - on which the
+    scaling and the error units rest - must not depend on the flag."""
+    R = "WHO-lossy"
+    n = 0
+    for nm in ("binary::binary", "bellerophon::bellerophon", "lemire::lemire", "lemire::compute_float"):
+        f = facts.fn(PF + nm, required=False)
+        if f is None:
+            continue
+        la = [l for l, name in f.names.items() if name == "lossy" and l <= f.argc]
+        if len(la) != 1:
+            col.bad(R, "%s:lossy-parameter" % nm, "no `lossy` parameter found", f.loc())
+            continue
+        n += 1
+        bad_true = []
+        bad_norm = []
+        for i, b in enumerate(f.blocks):
+            if not f.live(i):
+                continue
+            pol = [p for _d, e, p in path_conditions(f, i) if strip_casts(e)[0] == "arg" and strip_casts(e)[1] == la[0] and isinstance(p, bool)]
+            if not pol:
+                continue
+            work = [st for st in b["s"] if st[0] == "=" and st[2][0] in ("bin", "un") and not st[1][1]]
+            is_call = b["t"]["k"] == "call"
+            if True in pol and (work or is_call):
+                bad_true.append(f.loc(b["ts"]))
+            if is_call and last_seg(callee_name(b["t"]["f"])) == "normalize":
+                bad_norm.append(f.loc(b["ts"]))
+        col.check(R, "%s:nothing-computed-only-when-lossy" % nm, not bad_true,
+                  "%d block(s) compute something only when `lossy` is true: the flag may skip exact steps, not adjust the estimate" % len(bad_true), bad_true[0] if bad_true else f.loc())
+        if nm.startswith("bellerophon"):
+            col.check(R, "%s:normalize-not-gated" % nm, not bad_norm,
+                      "%d normalize call(s) depend on `lossy`: the multiplication that follows loses up to 31 bits of the mantissa in lossy mode (`123456789012e-41` 19884 ulp off)" % len(bad_norm), bad_norm[0] if bad_norm else f.loc())
+    col.floor(R, "moderate-path algorithms with a lossy flag", n, 1)   # compact (decimal only) has just Bellerophon
